@@ -176,6 +176,19 @@ func (rm *RegistrationManager) ingestRegistration(reg *DecoyRegistration) {
 		Stat().AddErrReg()
 		rm.AddErrReg()
 	}
+	if tracked := rm.registeredDecoys.RegistrationExists(reg); tracked != nil && tracked != reg {
+		// Another worker tracked its copy of this registration between the check above and
+		// TrackRegistration (which then only counted this one): this message is a duplicate.
+		// It must not go on. The tracked object belongs to the other worker, which may not
+		// have checked its covert address yet, or may reject it; validating that object on
+		// the strength of the checks made on this copy would let connections be proxied to
+		// an address that never passed the covert blocklist. The registration would also be
+		// probed and shared with the peer stations a second time.
+		logger.Debugf("Duplicate registration: %v %s\n", reg.IDString(), reg.RegistrationSource)
+		Stat().AddDupReg()
+		rm.AddDupReg()
+		return
+	}
 	verifhook.Yield("ingest:after-track")
 
 	// If registration is trying to connect to a covert address that
